@@ -3,7 +3,7 @@ import CoclsModel.Storage
 import CoclsModel.StorageMt
 /-! Driver for C19: runs the storage-policy models on the harness input (same grammar as harness/h_storage.cpp).
 
-`case <id> seq <policy> ex=<n> fs=<s0,s1,s2,s3> [p=<param>]`  — ops `alloc k sz | coro k kind | cdrop k kind |
+`case <id> seq <policy> ex=<n> fs=<s0,...,s7> [p=<param>]`  — ops `alloc k sz | coro k kind | cdrop k kind |
 free id | fin id | kill id | newobj | bufset n`, `end`;
 `case <id> sched <nthreads>` — ops `<tid> alloc sz | <tid> free id | <tid> go`, `end`. -/
 open Cocls Cocls.Proto Cocls.Storage
@@ -66,7 +66,7 @@ def seqOp (q : SeqSt) (ws : List String) : SeqSt × String :=
       if c == "coro" || c == "cdrop" then
         match k.toNat?, kind.toNat? with
         | some k, some kind =>
-            let sz := q.fs.getD (kind % 4) 0
+            let sz := q.fs.getD (kind % 8) 0
             match step q.s (Op.alloc k sz) with
             | (s', Res.alloc id blk) =>
                 if c == "coro" then
